@@ -435,6 +435,19 @@ def hash_quirk(draw, kind):
         e = [F(0)] * 3
         e[i] = F(draw(st.sampled_from((1, -1, 2))))
         o, o2 = ("PL", pt(lo, *ab[0]), tuple(e)), ("PL", pt(hi, *ab[0]), tuple(e))
+    elif kind == "G" and draw(st.booleans()):
+        # one vertex on a coordinate axis at -1 versus -2, all other vertices shared: the two Points hash alike
+        b_, c_, d_ = draw(st.integers(1, 3)), draw(st.integers(1, 3)), draw(st.integers(0, 3))
+        rest = [pt(0, b_, 0), pt(c_, 0, 0)] + ([pt(0, -d_, 0)] if d_ else [])
+        o = X.make_G([pt(lo, 0, 0)] + rest)
+        o2 = X.make_G([pt(hi, 0, 0)] + rest)
+        assume(len(o[1]) == len(o2[1]) == len(rest) + 1)
+    elif kind == "K" and draw(st.booleans()):
+        b_, c_, e_ = draw(st.integers(1, 3)), draw(st.integers(1, 3)), draw(st.integers(1, 3))
+        rest = [pt(0, b_, 0), pt(c_, 0, 0), pt(0, 0, e_)] + ([pt(0, -1, 0)] if draw(st.booleans()) else [])
+        o = X.make_K([pt(lo, 0, 0)] + rest)
+        o2 = X.make_K([pt(hi, 0, 0)] + rest)
+        assume(o is not None and o2 is not None and len(o[1]) == len(o2[1]) == len(rest) + 1)
     elif kind == "G":
         sh = draw(GB.shape2(3, 6))
         o = ("G", [pt(lo, a, b) for a, b in sh])
